@@ -427,7 +427,7 @@ func N_C07_Free(tier int) int {
 	if tier > 0 {
 		return len(c07FreePairs)
 	}
-	return 0
+	return 3
 }
 
 func H_C07_Free(shape int) {
